@@ -23,8 +23,9 @@ VARIABLES pi,       \* session index
           obs,      \* observations of finished statements
           status,   \* "run" | "stmtend" | "done" | "diverged"
           stepno,   \* steps of this session so far
-          itemstart \* stepno when the current item began
-vars == <<pi, si, cors, cur, heap, globals, out, stdin, obs, status, stepno, itemstart>>
+          itemstart,\* stepno when the current item began
+          peakk     \* deepest continuation of the running coroutine during the current item
+vars == <<pi, si, cors, cur, heap, globals, out, stdin, obs, status, stepno, itemstart, peakk>>
 View == <<pi, stepno>>
 
 Last(s) == s[Len(s)]
@@ -128,6 +129,7 @@ Init ==
   /\ status = "stmtend"      \* first action: BeginItem
   /\ stepno = 0
   /\ itemstart = 0
+  /\ peakk = 0
 
 M == [cors |-> cors, cur |-> cur, heap |-> heap, globals |-> globals, out |-> out, stdin |-> stdin]
 
@@ -437,6 +439,7 @@ BeginItem ==
   /\ status = "stmtend" /\ si <= Len(Items)
   /\ stepno' = stepno + 1
   /\ itemstart' = stepno
+  /\ peakk' = 0
   /\ IF "perr" \in DOMAIN Items[si]
      THEN /\ Observe([perr |-> TRUE], "stmtend", si + 1)
           /\ UNCHANGED <<pi, cors, cur, heap, globals, out, stdin>>
@@ -449,25 +452,26 @@ Step ==
   /\ ~(cors[cur].mode = "ret" /\ Len(cors[cur].k) = 0)
   /\ stepno' = stepno + 1
   /\ LET r == IF stepno - itemstart > MaxSteps THEN UnspecR ELSE StepFn(M) IN
-     IF "m" \in DOMAIN r THEN Assign(r.m) /\ UNCHANGED <<pi, si, obs, status, itemstart>>
+     IF "m" \in DOMAIN r THEN /\ Assign(r.m) /\ UNCHANGED <<pi, si, obs, status, itemstart>>
+                               /\ peakk' = Max(peakk, Len(r.m.cors[r.m.cur].k))
      ELSE IF "unspec" \in DOMAIN r THEN
           /\ obs' = Append(obs, [unspec |-> TRUE, budget |-> stepno - itemstart > MaxSteps]) /\ status' = "stmtend" /\ si' = Len(Items) + 1
-          /\ UNCHANGED <<pi, cors, cur, heap, globals, out, stdin, itemstart>>
+          /\ UNCHANGED <<pi, cors, cur, heap, globals, out, stdin, itemstart, peakk>>
      ELSE /\ Observe([err |-> r.raise, alt |-> r.alt, out |-> out,
                        report |-> [op |-> r.op, args |-> [i \in 1..Len(r.args) |-> Rendered(r.args[i])],
                                    ctxs |-> LET ch == Chain(M, cur) IN
                                             IF "frame" \in DOMAIN r
                                             THEN << << [name |-> r.frame.name, args |-> [i \in 1..Len(r.frame.args) |-> Rendered(r.frame.args[i])]] >> \o ch[1] >> \o Tail(ch)
                                             ELSE ch]], "stmtend", si + 1)
-          /\ UNCHANGED <<pi, cors, cur, heap, globals, out, stdin, itemstart>>
+          /\ UNCHANGED <<pi, cors, cur, heap, globals, out, stdin, itemstart, peakk>>
 
 StmtDone ==
   /\ status = "run"
   /\ cors[cur].mode = "ret" /\ Len(cors[cur].k) = 0
   /\ stepno' = stepno + 1
   /\ Assert(cors[cur].parent = 0, "statement finished inside a generator")
-  /\ Observe([val |-> Plain(cors[cur].ctl), out |-> out, live |-> Cardinality(Live(M) \ {cur})], "stmtend", si + 1)
-  /\ UNCHANGED <<pi, cors, cur, heap, globals, out, stdin, itemstart>>
+  /\ Observe([val |-> Plain(cors[cur].ctl), out |-> out, live |-> Cardinality(Live(M) \ {cur}), depth |-> peakk], "stmtend", si + 1)
+  /\ UNCHANGED <<pi, cors, cur, heap, globals, out, stdin, itemstart, peakk>>
 
 PlainObs(o) == IF "val" \in DOMAIN o THEN [o EXCEPT !.val = Plain(@)] ELSE o
 
@@ -476,9 +480,10 @@ Finish ==
   /\ stepno' = stepno + 1
   /\ status' = "done"
   /\ IF HasRec THEN PrintT("ACCEPT " \o ToJson([id |-> Sess.id, n |-> Len(obs), steps |-> stepno,
+                                                 depths |-> [i \in 1..Len(obs) |-> IF "depth" \in DOMAIN obs[i] THEN obs[i].depth ELSE -1],
                                                  unspec |-> (Len(obs) > 0 /\ "unspec" \in DOMAIN obs[Len(obs)])]))
      ELSE PrintT("OBS " \o ToJson([id |-> Sessions[pi].id, obs |-> [i \in 1..Len(obs) |-> PlainObs(obs[i])]]))
-  /\ UNCHANGED <<pi, si, cors, cur, heap, globals, out, stdin, obs, itemstart>>
+  /\ UNCHANGED <<pi, si, cors, cur, heap, globals, out, stdin, obs, itemstart, peakk>>
 
 Next == BeginItem \/ Step \/ StmtDone \/ Finish
 Spec == Init /\ [][Next]_vars
